@@ -216,18 +216,13 @@ theorem shift_ackBlock (s : Tcb) (seg : Hdr) :
       · rw [if_pos cf, if_pos cf, e]; split <;> rfl
       · rw [if_neg cf, if_neg cf]; split <;> rfl
     | LastAck =>
-      dsimp only
-      have e := Tcb.shift_isFinAcked ka kb (setUna ⟨lp, rp, mtu, ini, .LastAck, snd, rcv, out, inc, tmo⟩ seg.ack)
-      rw [← shift_setUna] at e
-      split <;> split
-      · rfl
-      · rename_i c1 c2; exact absurd (e.symm.trans c1) c2
-      · rename_i c1 c2; exact absurd (e.trans c2) c1
-      · rfl
-    | TimeWait =>
-      refine Tcb.shift_enqueueThen ka kb _ _ _ ?_ _ _ (fun u => rfl)
-      rw [Tcb.shift_headerBuilder, Tcb.shift_nxt, Hdr.shift_seq, Tcb.shift_rcvwnd, add_right_comm']
-      rfl
+      refine shift_afterAck ka kb _ seg ha (by intro h; cases h) (by intro h; cases h) _ _ (fun u r hu => ?_)
+      dsimp only at hu ⊢
+      rw [Tcb.shift_isFinAcked]
+      by_cases cf : u.isFinAcked = true
+      · rw [if_pos cf, if_pos cf]; rfl
+      · rw [if_neg cf, if_neg cf]; split <;> rfl
+    | TimeWait => rfl
 
 
 /-! ## block 3: RST -/
@@ -257,7 +252,9 @@ theorem shift_rstBlock_norm (s : Tcb) (seg : Hdr) :
     split
     · rfl
     · dsimp only
-      split <;> split <;> rfl
+      split
+      · rfl
+      · split <;> split <;> rfl
   · rw [shift_rstBlock ka kb s seg h]
 
 /-! ## block 4: SYN -/
